@@ -455,7 +455,7 @@ func cmdRun(args []string) int {
 					if !ok {
 						mismatches++
 						fmt.Printf("ENGINE-MISMATCH witness %s/%s did not replay natively: failed=%v panic=%q hang=%v assume=%v reached=%v\n",
-							it.w.Harness, it.w.Label, ro.Failed, ro.Panic, ro.Hang, ro.AssumeViolated, ro.Reached)
+							it.w.Harness, it.w.Label, dedupe(ro.Failed), ro.Panic, ro.Hang, ro.AssumeViolated, dedupe(ro.Reached))
 					}
 					if len(samples) < 6 {
 						samples = append(samples, map[string]interface{}{"kind": "witness", "harness": it.w.Harness, "reached": it.w.Label, "inputs": it.w.Vars, "observations": it.w.Obs, "native_replay_ok": ok})
@@ -510,6 +510,12 @@ func cmdRun(args []string) int {
 			exit = 2
 		}
 	}
+	if unconfirmed > 0 && exit == 0 {
+		// a violation the engine found for some interleaving but the native run did not reproduce is not
+		// reported as VIOLATION (it may be a modelling artefact), but it must not pass silently either
+		fmt.Printf("[%s] %d schedule-dependent counterexample(s) could not be confirmed natively: inconclusive (exit 2)\n", *prop, unconfirmed)
+		exit = 2
+	}
 
 	if !*noEvidence && *only == "" {
 		writeEvidence(*prop, *tier, seed, reports, funcs, samples, validated, nViol, nKnown, knownLines, mismatches, time.Since(t0).Seconds(), loadS, mirrors, cfgs, genSkipped)
@@ -544,6 +550,16 @@ func contains(xs []string, s string) bool {
 	return false
 }
 func containsStr(xs []string, s string) bool { return contains(xs, s) }
+
+func dedupe(xs []string) []string {
+	var out []string
+	for _, x := range xs {
+		if !contains(out, x) {
+			out = append(out, x)
+		}
+	}
+	return out
+}
 
 func classifyReplay(v *Violation, ro *replayOut) string {
 	if len(ro.AssumeViolated) > 0 {
